@@ -79,10 +79,64 @@ def runM (unit input : String) : Option String := do
     some (showObs (obsRoute r ql qa))
   | _ => none
 
-def runCase (_v : Variant) (line : String) : String :=
+def parseOp (s : String) : Option Op :=
+  match s.splitOn ":" with
+  | ["oa"] => some .originAs | ["pa"] => some .peerAs | ["ah"] => some .asPathHops | ["cr"] => some .convReach
+  | ["cw"] => some .convUnreach | ["mr"] => some .mpReach | ["mu"] => some .mpUnreach | ["la"] => some .logAll
+  | ["we"] => some .writeEntry
+  | ["cu", t] => some (.custom t)
+  | ["lc", a, b] => do some (.logCustom (← a.toNat?) (← b.toNat?))
+  | _ => none
+
+def parseOps (s : String) : Option (List Op) := if s == "-" then some [] else (s.splitOn ",").mapM parseOp
+
+def showOpt {α} [ToString α] : Option α → String
+  | some x => toString x
+  | none => "-"
+
+def showEntry (e : Entry) : String :=
+  s!"E({b01 e.ts};{showOpt e.originAs};{showOpt e.peerAs};{showOpt e.asPathHops};{e.convReach};{e.convUnreach};{showOpt e.mpReach};{showOpt e.mpReachFam};{showOpt e.mpUnreach};{showOpt e.mpUnreachFam};{showOpt e.custom})"
+
+def showOut : Out → String
+  | .custom a b => s!"C({a};{b})"
+  | .entry e => showEntry e
+
+def showOuts (l : List Out) : String := if l.isEmpty then "-" else " ".intercalate (l.map showOut)
+
+/-- what the drain loops make of an output: topic + record -/
+def showOsm : Out → String
+  | .custom a b => s!"custom:C({a};{b})"
+  | .entry e => s!"log_entry:{showEntry e}"
+
+def showGroups (g : List (List Out)) : String :=
+  let g := g.filter (!·.isEmpty)
+  if g.isEmpty then "-" else " / ".intercalate (g.map fun v => "os[" ++ " ".intercalate (v.map showOsm) ++ "]")
+
+def runL (v : Variant) (unit ops input : String) : Option String := do
+  let ops ← parseOps ops
+  let m ← if unit == "bmp" then parseBmp (kvs input) else some noBmp
+  let s := run v m ops Stream.new
+  some s!"{showOuts s.msgs} | P={showEntry s.entry}"
+
+def runHBmp (v : Variant) (ops input : String) : Option String := do
+  some (showGroups [runFresh v (← parseBmp (kvs input)) (← parseOps ops)])
+
+def runHRib (v : Variant) (ops input : String) : Option String := do
+  match ops.splitOn ";" with
+  | [a, w] =>
+    let a ← parseOps a
+    let w ← parseOps w
+    let u ← parseUpd (kvs input)
+    some (showGroups (runRoutes v (List.replicate (announcements u).length a ++ List.replicate (withdrawals u).length w)))
+  | _ => none
+
+def runCase (v : Variant) (line : String) : String :=
   let r := match line.splitOn "|" with
     | ["T", "registry"] => some (" ".intercalate registry)
     | ["M", unit, input] => runM unit input
+    | ["L", unit, ops, input] => runL v unit ops input
+    | ["H", "bmp", ops, input] => runHBmp v ops input
+    | ["H", "rib", ops, input] => runHRib v ops input
     | _ => none
   r.getD "bad-case"
 
@@ -93,4 +147,4 @@ partial def loop (v : Variant) (h : IO.FS.Stream) (out : IO.FS.Stream) : IO Unit
   loop v h out
 
 def main (args : List String) : IO Unit := do
-  loop ⟨args.contains "take_entry=repaired"⟩ (← IO.getStdin) (← IO.getStdout)
+  loop ⟨args.contains "take_entry=repaired", args.contains "rib_stream=per-route"⟩ (← IO.getStdin) (← IO.getStdout)
